@@ -353,6 +353,8 @@ def run(ctx):
                             okf = True
                 if not okf and d.const_value() == -1:
                     okf = c08.candidate_filtered(fl, tgt)      # hand-written arg-min over candidates > 1
+                if not okf and d.const_value() == -1:
+                    okf = c08.candidate_filtered_index(fl, tgt, bb2)   # .. selected by index, one loop for both directions
                 if okf:
                     ctx.ok("C01-R3", "every `-= 1` on a duration comes from an iterator filtered by `> 1`", cm.loc_of(st["span"]))
                 else:
